@@ -23,7 +23,7 @@ func init() {
 		ID: "C07",
 		Rule: "per case ~400 calls of concat, starts-with, contains, substring-before, substring-after, substring (2 and 3 args), string-length, normalize-space, translate with argument strings from {empty, ASCII, 2/3/4-byte scalars, combining sequences, the four XML whitespace characters, NBSP / EM SPACE / U+2028, repeats} passed through variables, positions and lengths from {integers in/out of range, fractions incl. +-0.5 ties, negatives, NaN, +-Infinity}, translate maps with overlaps, duplicates, shorter/longer third argument, multi-byte on either side; zero-argument forms from context nodes; " +
 			"oracle: reference model over []rune (substring by the literal predicate round(p) <= q < round(p)+round(l)); utf8.ValidString of every result; relations concat(substring-before(s,t),t,substring-after(s,t)) = s when contains(s,t), string-length(concat(a,b)) additive, normalize-space idempotent, translate(s,a,a) = s. distinct_nontrivial = distinct (function, argument classes, result)",
-		NCases: func(tier string) int { return map[string]int{"quick": 150, "thorough": 6000}[tier] },
+		NCases: func(tier string) int { return map[string]int{"quick": 2500, "thorough": 100000}[tier] },
 		Case:   c07Case,
 	})
 }
